@@ -19,6 +19,20 @@ CLAIMED = {
  "C20": ("C20.no_panic (every library call under catch_unwind, debug assertions and overflow checks on) and C20.local_and_stranger_rejected", "7 C20"),
 }
 
+
+CLAIMED.update({
+ "C09": ("C09.one_at_a_time, C09.neutralised_not_dropped, C09.no_campaign_with_unapplied_conf, C09.config_is_function_of_applied (cross-node equality and equality with the reference model R folded over the committed log), C09.only_voters_campaign", "7 C09"),
+ "C10": ("C10.converges: after an arbitrary fault prefix the World itself runs a fair, fault-free suffix (operator heals, every member ticks, all messages delivered, prompt fsync/apply, snapshot reports delivered, a client keeps proposing); within 10 x 30 election timeouts exactly one leader among members, equal logs/commit, a fresh proposal applied everywhere; premise (running majority of each voter set) checked", "7 C10"),
+ "C11": ("in situ: on every tracker state the simulated clusters reach, maximal_committed_index / tally_votes / has_quorum equal independent reference computations (plain and joint; group commit: <= quorum index always, exact when every voter has a group)", "7 C11"),
+ "C12": ("in situ at every apply_conf_change, restart and snapshot install: C12.invariants, simple_changes_one_voter, error_is_atomic, matches_reference (model R), restore_roundtrip, quorum_overlap (brute force over subsets)", "7 C12"),
+ "C13": ("C13.append_well_formed (every pending/emitted MsgAppend of the term vs the leader's log, heartbeat and snapshot commit bounds), size_limit, window, probe_one, snapshot_silence, uncommitted_bound (ghost accounting)", "7 C13"),
+ "C14": ("C14.logical_log (first/last index, term(i) over the whole window, match_term, is_up_to_date, find_conflict_by_term on probes from the other nodes' logs, size-limited slices vs the sequence model) and C14.pointers, after every storage mutation and per call", "7 C14"),
+ "C15": ("C15.install_guard, install_effect (state hash, configuration, boundary term, commit), fast_forward, send_only_if_needed, resume_after_report", "7 C15"),
+ "C16": ("C16.prevote_request_is_readonly, C16.no_term_inflation, and the lock-step scenario C16.stable_majority_undisturbed (majority ticking in lock-step with all internal traffic delivered each tick, adversarial minority)", "7 C16"),
+ "C17": ("C17.timeout_now_only_when_caught_up, no_proposals_while_transferring, abort_after_timeout, abort_when_removed, bad_target_ignored, completes_when_healthy (conditional, in the fair suffix)", "7 C17"),
+ "C18": ("in situ: the in-flight window of every (leader, follower) pair after every call, read through the cfg-guarded view: strictly increasing, within capacity, full() consistent, FIFO transition (old minus a prefix plus larger new), pending reduced capacity in force once drained", "7 C18"),
+})
+
 NOT_YET = {}
 
 def main():
